@@ -1,14 +1,25 @@
-(* Conn_GenTie: the guard expressions of TcpConnection.cc, regenerated from the clang AST of
-   /repo's current source (Gen_Conn), coincide with the tests Conn_Model performs.  Two lemmas
-   per guard: (1) the model function literally uses the named test ([reflexivity] after
-   unfolding), (2) the generated expression equals the named test under the embedding of the
-   model's nat / N / cstate into the C++ integers.  Flipping a comparison, dropping a conjunct
-   or testing another state in the source breaks (2). *)
+(* Conn_GenTie: the write path of TcpConnection.cc as it stands in /repo NOW, tied to Conn_Model.
+   Gen_Conn.v is regenerated on every run from the clang AST of the current source: every guard
+   expression (if-conditions) of sendInLoop / handleWrite / shutdownInLoop, the integer argument
+   expressions the streams depend on (remaining = len - nwrote, append(data+nwrote, remaining),
+   retrieve(n), the size given to the high-water callback) and a few structure facts.
+   This file
+     (1) proves each generated guard equal to the test Conn_Model performs, under the embedding of
+         the model's nat / N / cstate / errno into the C++ integers (tie_* lemmas);
+     (2) re-assembles sendInLoop, handleWrite and shutdownInLoop FROM THE GENERATED PIECES,
+         following the control flow of the C++ text ([sendInLoop_src] etc.), and proves them equal
+         to the model functions for all states, blocks and kernel answers ([*_is_source]).
+   Flipping a comparison, dropping a conjunct, testing another state constant, changing
+   retrieve(n) or the append offset in the source changes Gen_Conn.v and breaks (1)/(2) directly.
+   Companion files: Conn_GenTieLife.v (send / shutdown / forceClose / destroy), Conn_GenTieRead.v
+   (handleRead, startRead / stopRead). *)
 From Coq Require Import List ZArith Lia Bool Arith NArith.
 From Coq Require Import ZifyBool ZifyNat ZifyN.
 From Coq.Strings Require Import Byte.
 From Muduo Require Import Gen_Consts Gen_Conn Gen_C11 Conn_Model.
 Import ListNotations.
+
+Arguments Nat.min : simpl never.
 
 Definition st_code (s : cstate) : Z :=
   match s with
@@ -30,7 +41,7 @@ Definition errno_code (e : errno) : Z :=
   | ECONNRESET => errno_ECONNRESET | EOTHER => errno_ENOBUFS
   end.
 
-(* ---- sendInLoop ---------------------------------------------------------------------- *)
+(* ---- sendInLoop: guard by guard ---------------------------------------------------------- *)
 Lemma tie_state_test c :
   sendInLoop_state_test TcpConnection_kDisconnected (st_code (st c)) = cstate_eqb (st c) Disconnected.
 Proof. unfold sendInLoop_state_test. apply (st_code_eqb (st c) Disconnected). Qed.
@@ -43,6 +54,12 @@ Proof.
   destruct (Nat.eqb_spec (length (outb c)) 0) as [E|E]; [rewrite E; reflexivity|].
   apply Z.eqb_neq. lia.
 Qed.
+
+Lemma tie_write_ok_test_ok n : sendInLoop_write_ok_test (Z.of_nat n) = true.
+Proof. unfold sendInLoop_write_ok_test. apply Z.geb_le. lia. Qed.
+
+Lemma tie_write_ok_test_err : sendInLoop_write_ok_test (-1) = false.
+Proof. reflexivity. Qed.
 
 (* the kernel's answer as the C++ sees it: nwrote >= 0 with remaining = len - nwrote, or -1/errno *)
 Lemma tie_wc_test (has : bool) (len nwrote : nat) : nwrote <= len ->
@@ -58,6 +75,11 @@ Proof. destruct e; vm_compute; reflexivity. Qed.
 
 (* EWOULDBLOCK is the one error that is not even logged *)
 Lemma tie_wouldblock e : sendInLoop_not_wouldblock_test (errno_code e) = match e with EAGAIN => false | _ => true end.
+Proof. destruct e; vm_compute; reflexivity. Qed.
+
+(* a fatal errno is never EWOULDBLOCK, so nesting the fatal test inside the logging test loses nothing *)
+Lemma tie_fatal_nested e :
+  (sendInLoop_not_wouldblock_test (errno_code e) && sendInLoop_fatal_test (errno_code e))%bool = is_fatal e.
 Proof. destruct e; vm_compute; reflexivity. Qed.
 
 Lemma tie_queue_test (fatal : bool) (remaining : nat) :
@@ -86,6 +108,30 @@ Proof.
     + apply Z.ltb_ge. lia.
 Qed.
 
+Lemma tie_enable_test c : sendInLoop_enable_test (writing c) = negb (writing c).
+Proof. reflexivity. Qed.
+
+(* the argument expressions *)
+Lemma tie_remaining_expr (len nwrote : nat) : nwrote <= len ->
+  sendInLoop_remaining_expr (Z.of_nat len) (Z.of_nat nwrote) = Z.of_nat (len - nwrote).
+Proof. intros H. unfold sendInLoop_remaining_expr. lia. Qed.
+
+Lemma tie_append_from (nwrote : Z) : sendInLoop_append_from 0 nwrote = nwrote.
+Proof. unfold sendInLoop_append_from. lia. Qed.
+
+Lemma tie_append_len (remaining : Z) : sendInLoop_append_len remaining = remaining.
+Proof. reflexivity. Qed.
+
+Lemma tie_hwm_arg (old remaining : nat) :
+  Z.to_nat (sendInLoop_hwm_arg (Z.of_nat old) (Z.of_nat remaining)) = old + remaining.
+Proof. unfold sendInLoop_hwm_arg. lia. Qed.
+
+Lemma tie_write_len (len : Z) : sendInLoop_write_len len = len.
+Proof. reflexivity. Qed.
+
+Lemma tie_error_resets_nwrote : sendInLoop_error_resets_nwrote = true.
+Proof. reflexivity. Qed.
+
 (* the model's sendInLoop queues FHighWater exactly under model_hwm_test (and the queue test) *)
 Lemma sendInLoop_uses_hwm_test c d k :
   cstate_eqb (st c) Disconnected = false ->
@@ -109,13 +155,179 @@ Proof.
   - cbn [fst pending]. rewrite ?andb_assoc. reflexivity.
 Qed.
 
-(* ---- handleWrite --------------------------------------------------------------------- *)
+(* ---- sendInLoop re-assembled from the generated pieces ----------------------------------- *)
+(* what sockets::write returns for a scripted kernel answer: (return value, errno) *)
+Definition write_result (k : kres) (len : nat) : Z * Z :=
+  match k with
+  | Accept n => (Z.of_nat (Nat.min n len), 0%Z)
+  | AcceptAll => (Z.of_nat len, 0%Z)
+  | Err e => ((-1)%Z, errno_code e)
+  end.
+
+(* TcpConnection::sendInLoop(const void* data, size_t len), statement by statement:
+     ssize_t nwrote = 0; size_t remaining = len; bool faultError = false;
+     if (state_ == kDisconnected) { LOG_WARN; return; }
+     if (!isWriting() && readableBytes() == 0) {
+       nwrote = write(fd, data, len);
+       if (nwrote >= 0) { remaining = len - nwrote; if (remaining == 0 && wc_) queue(wc_); }
+       else { nwrote = 0; if (errno != EWOULDBLOCK) { LOG_SYSERR; if (errno == EPIPE || errno == ECONNRESET) faultError = true; } } }
+     if (!faultError && remaining > 0) {
+       oldLen = readableBytes();
+       if (oldLen + remaining >= mark && oldLen < mark && hw_) queue(hw_, oldLen + remaining);
+       append(data + nwrote, remaining); if (!isWriting()) enableWriting(); } *)
+Definition sendInLoop_src (c : conn) (d : list byte) (k : kres) : conn * list event :=
+  if sendInLoop_state_test TcpConnection_kDisconnected (st_code (st c)) then (c, [EvGiveUp]) else
+  let len := Z.of_nat (length d) in
+  let old := Z.of_nat (length (outb c)) in
+  let '(nwrote, remaining, faultError, p1, evs) :=
+    if sendInLoop_direct_test (writing c) old then
+      let '(ret, err) := write_result (effective c k) (Z.to_nat (sendInLoop_write_len len)) in
+      if sendInLoop_write_ok_test ret then
+        let rem := sendInLoop_remaining_expr len ret in
+        (ret, rem, false,
+         if sendInLoop_wc_test (has_wc c) rem then pending c ++ [FWriteComplete] else pending c,
+         @nil event)
+      else
+        ((if sendInLoop_error_resets_nwrote then 0 else ret)%Z, len,
+         (sendInLoop_not_wouldblock_test err && sendInLoop_fatal_test err)%bool,
+         pending c,
+         if sendInLoop_not_wouldblock_test err then [EvErrorLogged] else [])
+    else (0%Z, len, false, pending c, []) in
+  let wire' := wire c ++ firstn (Z.to_nat nwrote) d in
+  let acc' := if faultError then accepted c else accepted c ++ d in
+  if sendInLoop_queue_test faultError remaining then
+    let p2 := if sendInLoop_hwm_test (has_hwm c) (Z.of_N (hwm c)) old remaining
+              then p1 ++ [FHighWater (Z.to_nat (sendInLoop_hwm_arg old remaining))] else p1 in
+    (mkConn (st c)
+            (outb c ++ firstn (Z.to_nat (sendInLoop_append_len remaining))
+                              (skipn (Z.to_nat (sendInLoop_append_from 0 nwrote)) d))
+            (inb c)
+            (if sendInLoop_enable_test (writing c) then true else writing c)
+            (rd_chan c) (rd_flag c) (registered c) (hwm c) (has_wc c) (has_hwm c)
+            wire' (fin c) p2 (chk c) (delayed c) acc'
+            (consumed c) (delivered c) (enq c) (ran c) (ups c) (downs c), evs)
+  else
+    (mkConn (st c) (outb c) (inb c) (writing c)
+            (rd_chan c) (rd_flag c) (registered c) (hwm c) (has_wc c) (has_hwm c)
+            wire' (fin c) p1 (chk c) (delayed c) acc'
+            (consumed c) (delivered c) (enq c) (ran c) (ups c) (downs c), evs).
+
+Lemma firstn_rest {A} (l : list A) n : n <= length l -> firstn (length l - n) (skipn n l) = skipn n l.
+Proof. intros H. apply firstn_all2. rewrite skipn_length. lia. Qed.
+
+Lemma if_negb_true (b : bool) : (if negb b then true else b) = true.
+Proof. destruct b; reflexivity. Qed.
+
+(* the tail of sendInLoop (everything after the direct-write block), model side, for a block of
+   which [nw] bytes were written: shared by the three cases of the proof below *)
+Lemma sendInLoop_src_tail c (d : list byte) (nw : nat) (fatal : bool) (p1 : list functor) (evs : list event) : nw <= length d ->
+  (let remaining := Z.of_nat (length d - nw) in
+   let old := Z.of_nat (length (outb c)) in
+   let wire' := wire c ++ firstn (Z.to_nat (Z.of_nat nw)) d in
+   let acc' := if fatal then accepted c else accepted c ++ d in
+   if sendInLoop_queue_test fatal remaining then
+     let p2 := if sendInLoop_hwm_test (has_hwm c) (Z.of_N (hwm c)) old remaining
+               then p1 ++ [FHighWater (Z.to_nat (sendInLoop_hwm_arg old remaining))] else p1 in
+     (mkConn (st c)
+             (outb c ++ firstn (Z.to_nat (sendInLoop_append_len remaining))
+                               (skipn (Z.to_nat (sendInLoop_append_from 0 (Z.of_nat nw))) d))
+             (inb c)
+             (if sendInLoop_enable_test (writing c) then true else writing c)
+             (rd_chan c) (rd_flag c) (registered c) (hwm c) (has_wc c) (has_hwm c)
+             wire' (fin c) p2 (chk c) (delayed c) acc'
+             (consumed c) (delivered c) (enq c) (ran c) (ups c) (downs c), evs)
+   else
+     (mkConn (st c) (outb c) (inb c) (writing c)
+             (rd_chan c) (rd_flag c) (registered c) (hwm c) (has_wc c) (has_hwm c)
+             wire' (fin c) p1 (chk c) (delayed c) acc'
+             (consumed c) (delivered c) (enq c) (ran c) (ups c) (downs c), evs)) =
+  (let remaining := length d - nw in
+   let queue := (negb fatal && (0 <? remaining))%bool in
+   let old := length (outb c) in
+   let p2 := if (queue && (hwm c <=? N.of_nat (old + remaining))%N && (N.of_nat old <? hwm c)%N && has_hwm c)%bool
+             then p1 ++ [FHighWater (old + remaining)] else p1 in
+   (mkConn (st c)
+           (if queue then outb c ++ skipn nw d else outb c)
+           (inb c)
+           (if queue then true else writing c)
+           (rd_chan c) (rd_flag c) (registered c) (hwm c) (has_wc c) (has_hwm c)
+           (wire c ++ firstn nw d) (fin c) p2 (chk c) (delayed c)
+           (if fatal then accepted c else accepted c ++ d)
+           (consumed c) (delivered c) (enq c) (ran c) (ups c) (downs c), evs)).
+Proof.
+  intros Hle. cbv zeta.
+  rewrite tie_queue_test, tie_hwm_test, tie_hwm_arg, tie_append_len, tie_append_from, !Nat2Z.id.
+  unfold model_hwm_test.
+  destruct (negb fatal && (0 <? length d - nw))%bool eqn:Eq; cbn [andb].
+  - rewrite tie_enable_test, if_negb_true, firstn_rest by exact Hle. reflexivity.
+  - reflexivity.
+Qed.
+
+Theorem sendInLoop_is_source : forall c d k, sendInLoop_src c d k = sendInLoop c d k.
+Proof.
+  intros c d k. unfold sendInLoop_src, sendInLoop.
+  rewrite tie_state_test. destruct (cstate_eqb (st c) Disconnected); [reflexivity|].
+  rewrite tie_direct_test, tie_write_len, Nat2Z.id.
+  destruct (negb (writing c) && (length (outb c) =? 0))%bool.
+  - destruct (effective c k) as [n| |e]; cbn [write_result taken].
+    + (* Accept n *)
+      rewrite tie_write_ok_test_ok.
+      assert (Hle : Nat.min n (length d) <= length d) by lia.
+      rewrite (tie_remaining_expr _ _ Hle), (tie_wc_test _ _ _ Hle).
+      rewrite (sendInLoop_src_tail c d (Nat.min n (length d)) false _ [] Hle).
+      cbv zeta. cbn [andb negb]. reflexivity.
+    + (* AcceptAll *)
+      rewrite tie_write_ok_test_ok.
+      assert (Hle : length d <= length d) by lia.
+      rewrite (tie_remaining_expr _ _ Hle), (tie_wc_test _ _ _ Hle).
+      rewrite (sendInLoop_src_tail c d (length d) false _ [] Hle).
+      cbv zeta. cbn [andb negb]. reflexivity.
+    + (* Err e *)
+      rewrite tie_write_ok_test_err, tie_error_resets_nwrote, tie_fatal_nested, tie_wouldblock.
+      assert (Hle : 0 <= length d) by lia.
+      change 0%Z with (Z.of_nat 0).
+      replace (Z.of_nat (length d)) with (Z.of_nat (length d - 0)) by (f_equal; lia).
+      rewrite (sendInLoop_src_tail c d 0 (is_fatal e) _ _ Hle).
+      cbv zeta. cbn [andb negb]. destruct e; reflexivity.
+  - assert (Hle : 0 <= length d) by lia.
+    change 0%Z with (Z.of_nat 0).
+    replace (Z.of_nat (length d)) with (Z.of_nat (length d - 0)) by (f_equal; lia).
+    rewrite (sendInLoop_src_tail c d 0 false _ _ Hle).
+    cbv zeta. cbn [andb negb]. reflexivity.
+Qed.
+
+(* ---- shutdownInLoop ------------------------------------------------------------------------ *)
+Lemma tie_shutdown_test c : shutdownInLoop_notwriting_test (writing c) = negb (writing c).
+Proof. reflexivity. Qed.
+
+Lemma tie_shutdown_shuts_write : shutdownInLoop_shuts_write = true.
+Proof. reflexivity. Qed.
+
+(* if (!channel_->isWriting()) socket_->shutdownWrite(); *)
+Definition shutdownInLoop_src (c : conn) : conn * list event :=
+  if shutdownInLoop_notwriting_test (writing c) then
+    (mkConn (st c) (outb c) (inb c) (writing c) (rd_chan c) (rd_flag c) (registered c) (hwm c) (has_wc c)
+            (has_hwm c) (wire c) (if shutdownInLoop_shuts_write then true else fin c) (pending c) (chk c)
+            (delayed c) (accepted c) (consumed c) (delivered c) (enq c) (ran c) (ups c) (downs c),
+     if shutdownInLoop_shuts_write then [EvFin] else [])
+  else (c, []).
+
+Theorem shutdownInLoop_is_source : forall c, shutdownInLoop_src c = shutdownInLoop c.
+Proof.
+  intros c. unfold shutdownInLoop_src, shutdownInLoop. rewrite tie_shutdown_test, tie_shutdown_shuts_write.
+  destruct (writing c); reflexivity.
+Qed.
+
+(* ---- handleWrite --------------------------------------------------------------------------- *)
 Lemma tie_progress_test n : handleWrite_progress_test (Z.of_nat n) = (0 <? n).
 Proof.
   unfold handleWrite_progress_test. destruct (Nat.ltb_spec 0 n) as [E|E].
   - apply Z.gtb_lt. lia.
   - assert (n = 0) by lia. subst. reflexivity.
 Qed.
+
+Lemma tie_progress_test_err : handleWrite_progress_test (-1) = false.
+Proof. reflexivity. Qed.
 
 Lemma tie_emptied_test (l : list byte) : handleWrite_emptied_test (Z.of_nat (length l)) = (length l =? 0).
 Proof.
@@ -130,53 +342,75 @@ Proof. unfold handleWrite_disconnecting_test. apply (st_code_eqb (st c) Disconne
 Lemma tie_writing_test c : handleWrite_writing_test (writing c) = writing c.
 Proof. reflexivity. Qed.
 
-Lemma tie_shutdown_test c : shutdownInLoop_notwriting_test (writing c) = negb (writing c).
+Lemma tie_wc2_test c : handleWrite_wc2_test (has_wc c) = has_wc c.
 Proof. reflexivity. Qed.
 
-(* ---- life cycle ------------------------------------------------------------------------ *)
-Lemma tie_destroy_state_test c :
-  connectDestroyed_destroy_state_test TcpConnection_kConnected TcpConnection_kDisconnecting (st_code (st c)) = closable c.
+Lemma tie_retrieve_arg (n : Z) : handleWrite_retrieve_arg n = n.
+Proof. reflexivity. Qed.
+
+Lemma tie_disables_before_shutdown : handleWrite_disables_before_shutdown = true.
+Proof. reflexivity. Qed.
+
+(* TcpConnection::handleWrite():
+     if (isWriting()) {
+       n = write(fd, peek(), readableBytes());
+       if (n > 0) { retrieve(n);
+         if (readableBytes() == 0) { disableWriting(); if (wc_) queue(wc_); if (state_ == kDisconnecting) shutdownInLoop(); } }
+       else LOG_SYSERR; }
+     else LOG_TRACE *)
+Definition handleWrite_src (c : conn) (k : kres) : conn * list event :=
+  if handleWrite_writing_test (writing c) then
+    let '(ret, _) := write_result (effective c k) (length (outb c)) in
+    if handleWrite_progress_test ret then
+      let n := Z.to_nat (handleWrite_retrieve_arg ret) in
+      let out' := skipn n (outb c) in
+      let emptied := handleWrite_emptied_test (Z.of_nat (length out')) in
+      let c1 := mkConn (st c) out' (inb c)
+                       (if emptied then (if handleWrite_disables_before_shutdown then false else true) else true)
+                       (rd_chan c) (rd_flag c) (registered c) (hwm c) (has_wc c) (has_hwm c)
+                       (wire c ++ firstn (Z.to_nat ret) (outb c)) (fin c)
+                       (if (emptied && handleWrite_wc2_test (has_wc c))%bool then pending c ++ [FWriteComplete] else pending c)
+                       (chk c) (delayed c) (accepted c) (consumed c) (delivered c) (enq c) (ran c)
+                       (ups c) (downs c) in
+      if (emptied && handleWrite_disconnecting_test TcpConnection_kDisconnecting (st_code (st c)))%bool
+      then shutdownInLoop_src c1 else (c1, [])
+    else (c, [EvErrorLogged])
+  else (c, []).
+
+Theorem handleWrite_is_source : forall c k, handleWrite_src c k = handleWrite c k.
 Proof.
-  unfold connectDestroyed_destroy_state_test, closable.
-  change TcpConnection_kConnected with (st_code Connected).
-  change TcpConnection_kDisconnecting with (st_code Disconnecting).
-  rewrite !st_code_eqb. reflexivity.
+  intros c k. unfold handleWrite_src, handleWrite.
+  rewrite tie_writing_test. destruct (writing c); [|reflexivity].
+  destruct (effective c k) as [n| |e]; cbn [write_result taken].
+  - rewrite tie_progress_test, tie_retrieve_arg, Nat2Z.id.
+    destruct (0 <? Nat.min n (length (outb c))); [|reflexivity].
+    rewrite tie_emptied_test, tie_disconnecting_test, tie_wc2_test, tie_disables_before_shutdown,
+      shutdownInLoop_is_source.
+    destruct (length (skipn (Nat.min n (length (outb c))) (outb c)) =? 0); reflexivity.
+  - rewrite tie_progress_test, tie_retrieve_arg, Nat2Z.id.
+    destruct (0 <? length (outb c)); [|reflexivity].
+    rewrite tie_emptied_test, tie_disconnecting_test, tie_wc2_test, tie_disables_before_shutdown,
+      shutdownInLoop_is_source.
+    destruct (length (skipn (length (outb c)) (outb c)) =? 0); reflexivity.
+  - rewrite tie_progress_test_err. reflexivity.
 Qed.
 
-Lemma tie_forceclose_state_test c :
-  forceCloseInLoop_forceclose_state_test TcpConnection_kConnected TcpConnection_kDisconnecting (st_code (st c)) = closable c.
+(* ---- the facts Properties_C13 / C01 / C11 quote ------------------------------------------- *)
+(* the crossing test of the source, in the model's own terms *)
+Theorem source_crossing_test : forall mark old remaining has,
+  sendInLoop_hwm_test has (Z.of_N mark) (Z.of_nat old) (Z.of_nat remaining) =
+  ((mark <=? N.of_nat (old + remaining))%N && (N.of_nat old <? mark)%N && has)%bool.
+Proof. exact tie_hwm_test. Qed.
+
+(* the errno classification of the direct write: EWOULDBLOCK silent, EPIPE / ECONNRESET fatal,
+   everything else logged and treated as "nothing written" *)
+Theorem source_write_errno_classes : forall e,
+  sendInLoop_fatal_test (errno_code e) = is_fatal e /\
+  sendInLoop_not_wouldblock_test (errno_code e) = (match e with EAGAIN => false | _ => true end) /\
+  (is_fatal e = true <-> e = EPIPE \/ e = ECONNRESET) /\
+  errno_code EAGAIN = errno_EWOULDBLOCK.
 Proof.
-  unfold forceCloseInLoop_forceclose_state_test, closable.
-  change TcpConnection_kConnected with (st_code Connected).
-  change TcpConnection_kDisconnecting with (st_code Disconnecting).
-  rewrite !st_code_eqb. reflexivity.
+  intros e. split; [apply tie_fatal_test|]. split; [apply tie_wouldblock|]. split.
+  - destruct e; cbn; intuition discriminate.
+  - reflexivity.
 Qed.
-
-Lemma tie_startread_test c :
-  startReadInLoop_startread_test (rd_chan c) TcpConnection_kDisconnected (rd_flag c) (st_code (st c)) =
-  (negb (cstate_eqb (st c) Disconnected) && (negb (rd_flag c) || negb (rd_chan c)))%bool.
-Proof.
-  unfold startReadInLoop_startread_test. change TcpConnection_kDisconnected with (st_code Disconnected).
-  rewrite st_code_eqb. reflexivity.
-Qed.
-
-Lemma tie_stopread_test c :
-  stopReadInLoop_stopread_test (rd_chan c) TcpConnection_kDisconnected (rd_flag c) (st_code (st c)) =
-  (negb (cstate_eqb (st c) Disconnected) && (rd_flag c || rd_chan c))%bool.
-Proof.
-  unfold stopReadInLoop_stopread_test. change TcpConnection_kDisconnected with (st_code Disconnected).
-  rewrite st_code_eqb. reflexivity.
-Qed.
-
-(* the model's startReadInLoop / stopReadInLoop act exactly under those tests *)
-Lemma startRead_uses_test c :
-  startReadInLoop c =
-  if startReadInLoop_startread_test (rd_chan c) TcpConnection_kDisconnected (rd_flag c) (st_code (st c))
-  then set_reading c true true else c.
-Proof. rewrite tie_startread_test. reflexivity. Qed.
-
-Lemma stopRead_uses_test c :
-  stopReadInLoop c =
-  if stopReadInLoop_stopread_test (rd_chan c) TcpConnection_kDisconnected (rd_flag c) (st_code (st c))
-  then set_reading c false false else c.
-Proof. rewrite tie_stopread_test. reflexivity. Qed.
